@@ -1,12 +1,15 @@
-"""C07 (first version: Kani kernels only)."""
+"""C07: phonetic candidates are ranked best-first by a fixed, explainable order."""
+import obl_assembly as A
 import obl_kani
 
 
 def run(c):
-    names = ['k_rank_cmp_antisym', 'k_rank_sort_stable_4', 'k_rank_sort_stability']
+    names = ["k_rank_cmp_antisym", "k_rank_sort_stable_4", "k_rank_sort_stability"]
     if c.tier == "thorough":
-        names = names + THOROUGH
-    obl_kani.run(c, names)
-
-
-THOROUGH = []
+        names += ["k_rank_sort_stable_6"]
+    obl_kani.run(c, names, timeout=3000)
+    if A.validate_assembly_concrete(c):
+        ct = A.conv_table_for([p for w in A.WRAPPERS_QUICK for p in w])
+        A.obl_order(c, ct, thorough=(c.tier == "thorough"), budget_s=1500)
+    c.outside("that edit_distance is the edit distance; the content of the dictionary; words longer than the bound; "
+              "Rank numbers outside the producible domain (the comparator is not a total order there)")
